@@ -136,6 +136,19 @@ CLAIMED = {
              "while the real _beacon_loop runs.",
         design="§4 C19",
     ),
+    "C12": dict(
+        text="Lean proof for ALL byte strings: value_to_string output is the per-byte escape concatenation (repr plus both str.replace calls act "
+             "unit-wise: valueToString_unitwise), string_token_to_bytes of it returns the bytes (literal_roundtrip), and the STRING regex matches "
+             "exactly the literal whatever follows (literal_single_token); the regex is modelled both as a derived scanner and as a literal "
+             "lazy/backtracking reading and the two are proved equal (scanString_eq_rxMatch). Every documented escape decodes to its byte between "
+             "arbitrary units (escape_table, decode_units); a trailing backslash is kept and truncated escapes raise ValueError. The grammar's STRING "
+             "pattern is a generated obligation (pattern_is_modelled).",
+        note="CPython built-ins (repr(bytes), str.replace, int(s,16) for |s|<=2, bytes()) and re are modelled and compared exhaustively (all byte "
+             "strings of length <=2 over 0x00-0xff, length <=4 over the syntax alphabet; scanner vs re.match on all strings <=6/8 over a 4-letter "
+             "alphabet). Lark's parser/contextual lexer is not modelled: embedded literals are compared against from_text().as_dict() and lark's own "
+             "lexer. Oracle: decode(encode b) = b, ast.literal_eval of the text = b, exactly one STRING token.",
+        design="§4 C12",
+    ),
 }
 
 REASON_PENDING = "not claimed yet: model/theorems/correspondence for this property are not built in this revision (see DESIGN.md §7 build order)"
